@@ -53,6 +53,8 @@ type env struct {
 	cols, rows int
 	remeasure  bool
 	mask       uint32
+	kitty      bool   // the terminal identifies as kitty: caps.noZWJ (width method "no ZWJ")
+	capTag     string // which width method is in force, for the distribution report
 }
 
 var bg = cellT{".", 1, 99}
@@ -306,8 +308,8 @@ func (r *runner) run(e *env, ws winT, op opT, tags ...string) {
 	term := fmt.Sprintf("(mkCase %d %d %s %s %s %s %s %s)", e.cols, e.rows, coqCell(bg), coqWin(ws), hx.Bool(e.remeasure),
 		hx.List(tab), res.opTerm, res.obsTerm)
 	js := res.js
-	js["cols"], js["rows"], js["capmask"] = e.cols, e.rows, e.mask
-	r.s.Add(term, js, res.ndiff > 0, append(tags, op.Kind, fmt.Sprintf("depth%d", len(ws.Steps)))...)
+	js["cols"], js["rows"], js["capmask"], js["kitty"], js["caps"] = e.cols, e.rows, e.mask, e.kitty, e.capTag
+	r.s.Add(term, js, res.ndiff > 0, append(tags, op.Kind, fmt.Sprintf("depth%d", len(ws.Steps)), e.capTag)...)
 }
 
 // the call as Go source, for the replay file
@@ -398,8 +400,8 @@ func (r *runner) runSeq(e *env, steps []seqStep, tags ...string) {
 		}
 	}
 	term := fmt.Sprintf("(mkSCase %d %d %s %s %s %s)", e.cols, e.rows, coqCell(bg), hx.Bool(e.remeasure), hx.List(tab), hx.List(terms))
-	js := map[string]interface{}{"calls": calls, "cols": e.cols, "rows": e.rows, "capmask": e.mask, "steps": stepsJS}
-	r.q.Add(term, js, active >= 2, append(tags, fmt.Sprintf("len%d", len(steps)))...)
+	js := map[string]interface{}{"calls": calls, "cols": e.cols, "rows": e.rows, "capmask": e.mask, "kitty": e.kitty, "caps": e.capTag, "steps": stepsJS}
+	r.q.Add(term, js, active >= 2, append(tags, fmt.Sprintf("len%d", len(steps)), e.capTag)...)
 }
 
 // ---------- generators ----------
@@ -477,8 +479,72 @@ var narrow = []string{"a", "b", "c", "d", "e", "x", "y"}
 var wide = []string{"\u4e2d", "\u5b57", "\U0001F600", "\ud55c"}
 var special = []string{"e\u0301", "\u0301", "\U0001F469\u200d\U0001F680", "\U0001F1E9\U0001F1EA", "\u2764\ufe0f", "\r", "\u200b", "-", "a\u0323\u0308"}
 
+// characters whose cluster expansion / string width / break behaviour differ from a plain
+// letter: full-width punctuation that is a line-break non-starter or closer (no break
+// opportunity BEFORE it, so it stays glued to a preceding tab or blank run), a full-width
+// opener (no break AFTER it), zero-width characters, glue characters that forbid a break
+var wideClose = []string{"\u3002", "\u3001", "\uff0c", "\uff01", "\uff1f", "\uff09", "\u300d", "\u30fc"}
+var wideOpen = []string{"\uff08", "\u300c"}
+var zeroWide = []string{"\u200b", "\u2060", "\u00ad", "\ufeff", "\u200d"}
+var glue = []string{"\u00a0", "\u2011", "\u202f"}
+
+// what may directly follow a tab (or any run that ends at the window's edge)
+func (r *runner) genFollower() string {
+	rnd := r.cfg.Rand
+	switch rnd.Intn(8) {
+	case 0, 1, 2:
+		return wideClose[rnd.Intn(len(wideClose))]
+	case 3:
+		return zeroWide[rnd.Intn(len(zeroWide))] + wide[rnd.Intn(len(wide))]
+	case 4:
+		return glue[rnd.Intn(len(glue))] + wide[rnd.Intn(len(wide))]
+	case 5:
+		return wideOpen[rnd.Intn(len(wideOpen))] + wide[rnd.Intn(len(wide))]
+	case 6:
+		return wide[rnd.Intn(len(wide))]
+	default:
+		return special[rnd.Intn(len(special))]
+	}
+}
+
+// text rich in tabs: short narrow/wide prefixes, a tab, then a follower that often allows no
+// line break before it
+func (r *runner) genTabText(maxLen int) string {
+	rnd := r.cfg.Rand
+	var b strings.Builder
+	n := rnd.Intn(maxLen/3 + 2)
+	for i := 0; i < n; i++ {
+		k := rnd.Intn(100)
+		switch {
+		case k < 30:
+			b.WriteString("\t")
+			if rnd.Intn(3) > 0 {
+				b.WriteString(r.genFollower())
+			}
+		case k < 45:
+			b.WriteString(wideClose[rnd.Intn(len(wideClose))])
+		case k < 52:
+			b.WriteString(zeroWide[rnd.Intn(len(zeroWide))])
+		case k < 58:
+			b.WriteString(glue[rnd.Intn(len(glue))])
+		case k < 64:
+			b.WriteString(wide[rnd.Intn(len(wide))])
+		case k < 69:
+			b.WriteString(" ")
+		case k < 72:
+			b.WriteString("\n")
+		default:
+			b.WriteString(narrow[rnd.Intn(len(narrow))])
+		}
+	}
+	return b.String()
+}
+
 func (r *runner) genText(maxLen int) string {
 	rnd := r.cfg.Rand
+	if rnd.Intn(4) == 0 {
+		return r.genTabText(maxLen)
+	}
 	var b strings.Builder
 	n := rnd.Intn(maxLen + 1)
 	// mostly narrow, or rich in wide clusters
@@ -645,24 +711,41 @@ func main() {
 	r.q = hx.NewStream("seq", "model.Window", "scase", "c11_seq_mismatches", "c11_seq_violations")
 	r.q.ShardMax = 120
 
-	sizes := [][2]int{{1, 1}, {2, 2}, {3, 2}, {5, 4}, {6, 3}, {8, 5}}
-	// capability sets: none (wcwidth measuring), unicode core + explicit width (no
-	// re-measuring), unicode core only
-	masks := []uint32{0, 1<<1 | 1<<9, 1 << 1}
+	sizes := [][2]int{{1, 1}, {2, 2}, {3, 2}, {5, 4}, {6, 3}, {8, 5}, {10, 3}}
+	// every width-measuring method the text helpers can run under: unicodeCore x explicitWidth
+	// (both set: the widths uniseg reported with the clusters are used as they are; otherwise
+	// every cluster is re-measured by Vaxis.characterWidth) x the kitty quirk caps.noZWJ (the
+	// terminal identifies as kitty: characterWidth ignores ZWJ when neither capability is set)
+	masks := []uint32{0, 1<<1 | 1<<9, 1 << 1, 1 << 9}
 	var envs []*env
 	for _, sz := range sizes {
 		for _, m := range masks {
-			fc := hx.NewFakeConsole(hx.ProfileFromMask(m, sz[1], sz[0]))
-			vx, err := vaxis.New(vaxis.Options{WithConsole: fc, NoSignals: true})
-			if err != nil {
-				panic(err)
+			for _, kitty := range []bool{false, true} {
+				prof := hx.ProfileFromMask(m, sz[1], sz[0])
+				if kitty {
+					prof.XTVersion = "kitty(0.35.2)"
+				}
+				fc := hx.NewFakeConsole(prof)
+				vx, err := vaxis.New(vaxis.Options{WithConsole: fc, NoSignals: true})
+				if err != nil {
+					panic(err)
+				}
+				caps := vx.VerifCaps()
+				if caps["unicodeCore"] != (m&(1<<1) != 0) || caps["explicitWidth"] != (m&(1<<9) != 0) || caps["noZWJ"] != kitty {
+					panic(fmt.Sprintf("capabilities not as requested: mask %#x kitty %v: %v", m, kitty, caps))
+				}
+				e := &env{vx: vx, cols: sz[0], rows: sz[1], mask: m, kitty: kitty, remeasure: !caps["unicodeCore"] || !caps["explicitWidth"]}
+				e.capTag = "caps"
+				for _, k := range []string{"unicodeCore", "explicitWidth", "noZWJ"} {
+					if caps[k] {
+						e.capTag += "+" + k
+					}
+				}
+				if len(vx.VerifScreenNext()) != e.rows {
+					panic("unexpected screen size")
+				}
+				envs = append(envs, e)
 			}
-			caps := vx.VerifCaps()
-			e := &env{vx: vx, cols: sz[0], rows: sz[1], mask: m, remeasure: !caps["unicodeCore"] || !caps["explicitWidth"]}
-			if len(vx.VerifScreenNext()) != e.rows {
-				panic("unexpected screen size")
-			}
-			envs = append(envs, e)
 		}
 	}
 	defer func() {
@@ -691,7 +774,7 @@ func main() {
 	// every coordinate of the window).  Quick tier: a stride through the same space.
 	var e54 *env
 	for _, e := range envs {
-		if e.cols == 5 && e.rows == 4 && e.mask == 0 {
+		if e.cols == 5 && e.rows == 4 && e.mask == 0 && !e.kitty {
 			e54 = e
 		}
 	}
@@ -717,7 +800,7 @@ func main() {
 	// depth 2 on a 3x2 screen, offsets/sizes -2..parent+2, strided in quick
 	var e32 *env
 	for _, e := range envs {
-		if e.cols == 3 && e.rows == 2 && e.mask == 0 {
+		if e.cols == 3 && e.rows == 2 && e.mask == 0 && !e.kitty {
 			e32 = e
 		}
 	}
@@ -753,16 +836,75 @@ func main() {
 	}
 
 	// the classic: a wide cluster that does not fit in what is left of the row
-	for _, e := range envs {
+	for ei, e := range envs {
 		if e.cols < 5 {
 			continue
 		}
-		for _, kind := range []string{"print", "wrap", "println", "ptrunc"} {
-			for _, txt := range []string{"ab\u4e2dd", "\u4e2d\u4e2d\u4e2d\u4e2d", "a\u4e2d\n\u4e2db\u4e2d", "ab \u4e2d cd"} {
+		for ki, kind := range []string{"print", "wrap", "println", "ptrunc"} {
+			for xi, txt := range []string{"ab\u4e2dd", "\u4e2d\u4e2d\u4e2d\u4e2d", "a\u4e2d\n\u4e2db\u4e2d", "ab \u4e2d cd"} {
+				if !cfg.Thorough() && (ei+ki+xi)%3 != 0 {
+					continue // quick tier: a third of the (call, text) pairs per environment, rotating
+				}
 				ws := winT{Steps: []stepT{{true, 1, 0, 3, 2}}}
 				r.run(e, ws, opT{Kind: kind, Segs: []segT{{txt, 2}}}, "wide-at-edge")
 				ws = winT{Steps: []stepT{{true, 0, 0, 1, 3}}}
 				r.run(e, ws, opT{Kind: kind, Segs: []segT{{txt, 2}}}, "wide-in-1col")
+			}
+		}
+	}
+
+	// a run of cells that ends exactly in the window's last column, followed by a cluster
+	// that must not be put there.  The run comes from a TAB (Characters expands it to eight
+	// blanks while its string width is 0), after a prefix chosen so that (prefix + 8) mod
+	// width = width-1 (and one column less / more); the follower is a wide cluster before
+	// which no line break is allowed (closing punctuation, a wide cluster glued by WORD
+	// JOINER), one before which a break is allowed, a zero-width character, a narrow cluster.
+	// Every text helper, every window width the screen allows, window flush left and flush
+	// right on the screen, every width-measuring method.
+	noBreak := []string{"\u3002", "\uff09x", "\u2060\u4e16"}
+	others := []string{"\u4e16", "\u200b\u3002", "e\u0301", "\u00a0\U0001F600"}
+	ti := 0
+	for _, e := range envs {
+		if e.cols < 3 || (!cfg.Thorough() && (e.cols == 5 || e.cols == 8)) {
+			continue
+		}
+		for wd := 1; wd <= e.cols; wd++ {
+			for ki, kind := range []string{"wrap", "print", "println", "ptrunc"} {
+				var fl []string
+				if cfg.Thorough() {
+					fl = append(append(fl, noBreak...), others...)
+				} else if ki < 2 {
+					fl = append(append(fl, noBreak...), others[ti%len(others)])
+				} else {
+					fl = []string{append(append([]string{}, noBreak...), others...)[ti%(len(noBreak)+len(others))]}
+				}
+				for _, f := range fl {
+					ti++
+					exact := ((wd-9)%wd + wd) % wd
+					ps := []int{exact}
+					if cfg.Thorough() {
+						ps = append(ps, (exact+1)%wd, (exact+wd-1)%wd)
+					} else if ti%3 == 0 {
+						ps = []int{(exact + 1 + ti%2*(wd-2) + wd) % wd}
+					}
+					for _, p := range ps {
+						prefix := strings.Repeat("ab", p)[:p]
+						if p >= 2 && ti%4 == 0 {
+							prefix = "\u4e2d" + prefix[2:] // same width, a wide cluster in it
+						}
+						a := 0
+						if ti%2 == 1 {
+							a = e.cols - wd // flush right: an overhang would leave the screen
+						}
+						ws := winT{Steps: []stepT{{true, a, 0, wd, -1}}}
+						op := opT{Kind: kind, Row: ti % 2, Segs: []segT{{prefix + "\t" + f, 3}}}
+						if ti%5 == 0 {
+							// the tab in a Segment of its own (the line-break state is carried over)
+							op.Segs = []segT{{prefix, 2}, {"\t", 3}, {f, 4}}
+						}
+						r.run(e, ws, op, "tab-run-at-edge")
+					}
+				}
 			}
 		}
 	}
@@ -799,13 +941,13 @@ func main() {
 	// touching its first and last column.  One capability set per (screen, painter).
 	pk := 0
 	for _, sz := range sizes {
-		if sz[0] < 5 {
+		if sz[0] < 5 || (!cfg.Thorough() && sz[0] > 8) {
 			continue
 		}
 		for pi := 0; pi < 4; pi++ {
 			var e *env
 			for _, c := range envs {
-				if c.cols == sz[0] && c.rows == sz[1] && c.mask == masks[pk%len(masks)] {
+				if c.cols == sz[0] && c.rows == sz[1] && c.mask == masks[(pk+pk/4)%len(masks)] && c.kitty == (pk/4%2 == 1) {
 					e = c
 				}
 			}
@@ -830,6 +972,6 @@ func main() {
 		}
 	}
 
-	cfg.Write("C11", "one drawing call (SetCell, SetStyle, Fill, Clear, Print, PrintTruncate, Println, Wrap) through a window chain of depth 0-4 built by Vaxis.Window/New and by Window literals with offsets and sizes from negative to beyond the parent, on screens 1x1..8x5 under three capability sets; texts over narrow, wide, combining, ZWJ, flag, tab, CR, LF, CRLF clusters; plus a (strided in quick, complete in thorough) enumeration of all depth-1 New windows on 5x4 and depth-2 windows on 3x2 under Fill; non-trivial = at least one screen cell changed.  Stream seq: 2-4 calls, each through its own window, on one screen that is not reset in between (random windows and calls after a painter that covers the screen with wide/narrow content; directed: a New window whose edges cut painted content at every column, then each of the eight calls), every step compared and decided against the screen observed before it; non-trivial = at least two steps changed the screen they found",
+	cfg.Write("C11", "one drawing call (SetCell, SetStyle, Fill, Clear, Print, PrintTruncate, Println, Wrap) through a window chain of depth 0-4 built by Vaxis.Window/New and by Window literals with offsets and sizes from negative to beyond the parent, on screens 1x1..10x3 under all eight width-measuring settings (unicodeCore x explicitWidth x kitty noZWJ quirk); texts over narrow, wide, combining, ZWJ, flag, tab, CR, LF, CRLF clusters, full-width closing/opening punctuation (line-break non-starters), zero-width and glue characters, a quarter of the texts rich in tabs followed by such characters; directed: a prefix + TAB whose eight blanks end exactly in (one before, one after) the last column of a window of every width, followed by wide clusters with and without a break opportunity, for all four text helpers; plus a (strided in quick, complete in thorough) enumeration of all depth-1 New windows on 5x4 and depth-2 windows on 3x2 under Fill; non-trivial = at least one screen cell changed.  Stream seq: 2-4 calls, each through its own window, on one screen that is not reset in between (random windows and calls after a painter that covers the screen with wide/narrow content; directed: a New window whose edges cut painted content at every column, then each of the eight calls), every step compared and decided against the screen observed before it; non-trivial = at least two steps changed the screen they found",
 		[]*hx.Stream{r.s, r.q}, map[string]interface{}{"envs": len(envs)}, r.direct)
 }
